@@ -1,4 +1,4 @@
 SPECIFICATION Spec
-CONSTANTS Keys = {"a", "b"} MaxTTLs = {0, 2} TTLs = {1, 3} MaxNow = 4 Procs = {"c1", "cleaner"}
+CONSTANTS TPS = 1 Keys = {"a", "b"} MaxTTLs = {0, 2} TTLs = {1, 3} MaxNow = 4 Procs = {"c1", "cleaner"}
 INVARIANTS HitIsLatestLive LiveNeverVanishes CapApplied
 CHECK_DEADLOCK FALSE
